@@ -27,8 +27,8 @@ def ctype(node):
         return ("bool", 1)
     if t in UTYPES:
         return ("u", UTYPES[t])
-    if t in ("int", "char", "long", "long long"):
-        return ("i", {"int": 32, "char": 8}.get(t, 64))
+    if t in ("int", "char", "signed char", "short", "long", "long long"):
+        return ("i", {"int": 32, "char": 8, "signed char": 8, "short": 16}.get(t, 64))
     raise Unsupported("type " + t)
 
 class Ctx:
@@ -37,6 +37,7 @@ class Ctx:
         self.env = {}           # C variable -> current Gallina name
         self.n = 0
         self.params = []        # Gallina parameters in order of first use / declaration
+        self.bools = set()      # parameters of C++ type bool
     def fresh(self, base):
         self.n += 1
         return "%s%d" % (base, self.n)
@@ -61,17 +62,19 @@ def expr(n, cx):
         if ck in ("LValueToRValue", "NoOp", "FunctionToPointerDecay"):
             return sub
         if ck == "IntegralCast":
+            # signed values are carried as their two's-complement representative in [0, 2^w)
             src, dst = ctype(ins[0]), ctype(n)
-            if dst[0] == "u":
-                if src[0] == "u" and src[1] <= dst[1]:
-                    return sub                      # widening of an unsigned value
-                if src[0] == "i" and is_nonneg_small(ins[0]):
-                    return sub                      # non-negative int that fits
-                if src[0] == "u":
-                    return "(wrap %d %s)" % (dst[1], sub)
-            if dst[0] == "i" and src[0] == "u" and src[1] < dst[1]:
-                return sub                          # promotion of unsigned char/short to int
-            raise Unsupported("integral cast %s -> %s" % (src, dst))
+            if src[0] == "bool" or dst[0] == "bool":
+                raise Unsupported("integral cast %s -> %s" % (src, dst))
+            if dst[1] < src[1]:
+                return "(wrap %d %s)" % (dst[1], sub)      # narrowing: low bits of the representative
+            if dst[1] == src[1]:
+                return sub                              # same width: same representative
+            if src[0] == "u":
+                return sub                              # zero extension
+            if nonneg(ins[0]):
+                return sub                              # sign extension of a provably non-negative value
+            raise Unsupported("sign extension %s -> %s of a possibly negative value" % (src, dst))
         if ck == "IntegralToBoolean":
             return "(negb (%s =? 0))" % sub
         raise Unsupported("cast kind %s" % ck)
@@ -88,6 +91,11 @@ def expr(n, cx):
         if name in cx.env:
             return cx.env[name]
         return cx.param(name)
+    if k == "MemberExpr" and ins and ins[0]["kind"] == "CXXThisExpr":
+        nm = n["name"]
+        if ctype(n)[0] == "bool":
+            cx.bools.add(nm)
+        return cx.param(nm)
     if k == "CXXMemberCallExpr":
         me = ins[0]
         if me["kind"] != "MemberExpr" or len(ins) != 1:
@@ -119,19 +127,26 @@ def expr(n, cx):
         if op in ("&&", "||"):
             return "(%s %s %s)" % (a, "&&" if op == "&&" else "||", b)
         if op in ("<", "<=", ">", ">=", "==", "!="):
-            if ta[0] == "i" and not (is_nonneg_small(ins[0]) and is_nonneg_small(ins[1])):
+            if ta[0] == "i" and op not in ("==", "!=") and not (nonneg(ins[0]) and nonneg(ins[1])):
                 raise Unsupported("signed comparison")
             m = {"<": "(%s <? %s)", "<=": "(%s <=? %s)", ">": "(%s <? %s)", ">=": "(%s <=? %s)",
                  "==": "(%s =? %s)", "!=": "(negb (%s =? %s))"}[op]
             return m % ((b, a) if op in (">", ">=") else (a, b))
-        if t[0] != "u":
+        if t[0] not in ("u", "i"):
             raise Unsupported("arithmetic in type %s" % (t,))
         w = t[1]
+        # signed +, -, *, << : two's-complement wrap (what GCC/clang generate; an overflow is reported
+        # by UBSan separately); signed >> only for provably non-negative left operands
+        if op in ("<<", ">>") and not nonneg(ins[1]):
+            raise Unsupported("shift by a possibly negative amount")
         if op == "+": return "(uadd %d %s %s)" % (w, a, b)
         if op == "-": return "(usub %d %s %s)" % (w, a, b)
         if op == "*": return "(umul %d %s %s)" % (w, a, b)
         if op == "<<": return "(ushl %d %s %s)" % (w, a, b)
-        if op == ">>": return "(N.shiftr %s %s)" % (a, b)
+        if op == ">>":
+            if t[0] == "i" and not nonneg(ins[0]):
+                raise Unsupported("right shift of a possibly negative value")
+            return "(N.shiftr %s %s)" % (a, b)
         if op == "&": return "(N.land %s %s)" % (a, b)
         if op == "|": return "(N.lor %s %s)" % (a, b)
         if op == "^": return "(N.lxor %s %s)" % (a, b)
@@ -139,6 +154,71 @@ def expr(n, cx):
     if k == "ConditionalOperator":
         return "(if %s then %s else %s)" % (expr(ins[0], cx), expr(ins[1], cx), expr(ins[2], cx))
     raise Unsupported("expression node " + k)
+
+def ubound(n):
+    """static upper bound of the two's-complement representative of an integer expression (None: unknown)"""
+    k = n["kind"]
+    ins = n.get("inner", [])
+    try:
+        t = ctype(n)
+    except Unsupported:
+        return None
+    full = (1 << t[1]) - 1 if t[0] in ("u", "i") else None
+    if k in ("IntegerLiteral", "CharacterLiteral"):
+        v = int(n["value"])
+        return v if v >= 0 else None
+    if k in ("ParenExpr", "ExprWithCleanups", "ConstantExpr"):
+        return ubound(ins[0])
+    if k in ("ImplicitCastExpr", "CStyleCastExpr", "CXXFunctionalCastExpr", "CXXStaticCastExpr"):
+        ck = n.get("castKind")
+        if ck in ("LValueToRValue", "NoOp"):
+            b = ubound(ins[0])
+            return b if b is not None else (full if t[0] == "u" else None)
+        if ck == "IntegralCast":
+            src = ctype(ins[0]); b = ubound(ins[0])
+            if b is None and src[0] == "u":
+                b = (1 << src[1]) - 1
+            if b is None:
+                return None
+            if t[1] < src[1]:
+                return min(b, (1 << t[1]) - 1)
+            if src[0] == "i" and b >= (1 << (src[1] - 1)) and t[1] > src[1]:
+                return None
+            return b
+        return None
+    if k == "BinaryOperator":
+        op = n["opcode"]
+        a, b = ubound(ins[0]), ubound(ins[1])
+        if op == "&":
+            c = [x for x in (a, b) if x is not None]
+            return min(c) if c else None
+        if op in ("|", "^") and a is not None and b is not None:
+            return (1 << max(a.bit_length(), b.bit_length())) - 1
+        if op == ">>" and a is not None:
+            r = ins[1]
+            while r["kind"] in ("ImplicitCastExpr", "ParenExpr"):
+                r = r["inner"][0]
+            if r["kind"] == "IntegerLiteral":
+                return a >> int(r["value"])
+            return a
+        if op == "<<" and a is not None:
+            r = ins[1]
+            while r["kind"] in ("ImplicitCastExpr", "ParenExpr"):
+                r = r["inner"][0]
+            if r["kind"] == "IntegerLiteral" and (a << int(r["value"])) <= full:
+                return a << int(r["value"])
+        return None
+    if k == "DeclRefExpr" and t[0] == "u":
+        return full
+    return None
+
+def nonneg(n):
+    """the expression's value is provably non-negative (unsigned type, or signed with a static bound below 2^(w-1))"""
+    t = ctype(n)
+    if t[0] == "u":
+        return True
+    b = ubound(n)
+    return b is not None and b < (1 << (t[1] - 1))
 
 def is_nonneg_small(n):
     k = n["kind"]
@@ -217,7 +297,7 @@ def find_body(fn):
     return None
 
 def emit(name, params, cx, result):
-    s = "Definition %s %s :=\n" % (name, " ".join("(%s : N)" % p for p in params) if params else "")
+    s = "Definition %s %s :=\n" % (name, " ".join("(%s : %s)" % (p, "bool" if p in cx.bools else "N") for p in params) if params else "")
     for nm, e in cx.lets:
         s += "  let %s := %s in\n" % (nm, e)
     return s + "  %s.\n" % result
@@ -271,21 +351,34 @@ def gen_hash(fn, name):
     params = state + ["c"]
     return init_defs + emit("gen_%s_step" % name, params, cx2, cx2.env[rvar]), rvar
 
-def gen_pure(fn, name):
+def gen_pure(fn, name, gname=None):
     body = find_body(fn)
     cx = Ctx()
     for p in fn.get("inner", []):
         if p["kind"] == "ParmVarDecl" and ctype(p)[0] != "ptr":
             cx.param(p["name"])
-    res = None
-    for s in body["inner"]:
+    res = seq_result(body["inner"], cx, name)
+    return emit(gname or ("gen_" + name), cx.params, cx, res)
+
+def only_return(n):
+    """a statement that is just `return e;` (possibly wrapped in braces)"""
+    while n["kind"] == "CompoundStmt" and len(n.get("inner", [])) == 1:
+        n = n["inner"][0]
+    return n if n["kind"] == "ReturnStmt" else None
+
+def seq_result(stmts, cx, name):
+    """value returned by a statement list; `if (c) return e;` becomes `if c then e else <rest>`
+    (the let-bindings of the rest are hoisted: every translated expression is total and pure)"""
+    for i, s in enumerate(stmts):
         if s["kind"] == "ReturnStmt":
-            res = expr(s["inner"][0], cx)
-        else:
-            stmt(s, cx)
-    if res is None:
-        raise Unsupported("no return in " + name)
-    return emit("gen_" + name, cx.params, cx, res)
+            return expr(s["inner"][0], cx)
+        if s["kind"] == "IfStmt" and len(s["inner"]) == 2 and only_return(s["inner"][1]):
+            cond = expr(s["inner"][0], cx)
+            early = expr(only_return(s["inner"][1])["inner"][0], cx)
+            rest = seq_result(stmts[i + 1:], cx, name)
+            return "(if %s then %s else %s)" % (cond, early, rest)
+        stmt(s, cx)
+    raise Unsupported("no return in " + name)
 
 def gen_method_int(fn, gname):
     """static int f( unsigned args ) { return <unsigned expression>; } whose result the callers store in an
@@ -345,6 +438,65 @@ def gen_sym_and_type(td):
     return "\n".join(out)
 
 
+def gen_convertor(td):
+    """endianness_convertor::operator() for the three unsigned widths -> gen_conv16/32/64 need_conversion value"""
+    out = []
+    recs = [d for d in all_docs("endianness_convertor", td) if d.get("kind") == "CXXRecordDecl" and d.get("inner")]
+    if len(recs) != 1:
+        raise Unsupported("%d definitions of endianness_convertor" % len(recs))
+    for w, ty in ((16, "uint16_t"), (32, "uint32_t"), (64, "uint64_t")):
+        ms = [m for m in recs[0]["inner"] if m.get("kind") == "CXXMethodDecl" and m.get("name") == "operator()"
+              and m.get("type", {}).get("qualType", "").replace(" ", "") == "%s(%s)const" % (ty, ty) and find_body(m)]
+        if len(ms) != 1:
+            raise Unsupported("%d definitions of endianness_convertor::operator()(%s)" % (len(ms), ty))
+        text = gen_pure(ms[0], "conv%d" % w)
+        if not text.startswith("Definition gen_conv%d (value : N) (need_conversion : bool) :=" % w):
+            raise Unsupported("parameters of the %d-bit convertor: %s" % (w, text.splitlines()[0]))
+        out.append(text)
+    return "\n".join(out)
+
+WRAPPERS = """#include <elfio/elfio.hpp>
+using namespace ELFIO;
+namespace verif_wrap {
+// the macros of elf_types.hpp at the argument/result types of their call sites in elfio_symbols.hpp / elfio_relocation.hpp
+unsigned char w_st_bind( unsigned char st_info ) { return ELF_ST_BIND( st_info ); }
+unsigned char w_st_type( unsigned char st_info ) { return ELF_ST_TYPE( st_info ); }
+unsigned char w_st_info( unsigned char bind, unsigned char type ) { return ELF_ST_INFO( bind, type ); }
+Elf_Xword w_r_info32( Elf_Word symbol, unsigned int type ) { return ELF32_R_INFO( (Elf_Xword)symbol, type ); }
+Elf_Xword w_r_info64( Elf_Word symbol, unsigned int type ) { return ELF64_R_INFO( (Elf_Xword)symbol, type ); }
+}
+"""
+WRAPPED = ["w_st_bind", "w_st_type", "w_st_info", "w_r_info32", "w_r_info64"]
+
+def gen_wrappers(td):
+    tu = os.path.join(td, "wrap.cpp")
+    with open(tu, "w") as f:
+        f.write(WRAPPERS)
+    p = subprocess.run(["clang++", "-std=c++17", "-I" + REPO, "-fsyntax-only", "-Xclang", "-ast-dump=json",
+                        "-Xclang", "-ast-dump-filter=verif_wrap", tu], stdout=subprocess.PIPE, stderr=subprocess.PIPE, timeout=300)
+    if p.returncode != 0:
+        raise Unsupported("clang failed on the macro wrappers: %s" % p.stderr.decode()[-500:])
+    txt = p.stdout.decode(); dec = json.JSONDecoder(); i = 0; fns = {}
+    while i < len(txt):
+        while i < len(txt) and txt[i] in " \n\r\t":
+            i += 1
+        if i >= len(txt):
+            break
+        obj, j = dec.raw_decode(txt, i); i = j
+        stack = [obj]
+        while stack:
+            d = stack.pop()
+            if d.get("kind") == "FunctionDecl" and d.get("name") in WRAPPED and find_body(d):
+                fns[d["name"]] = d
+            stack.extend(c for c in d.get("inner", []) if isinstance(c, dict))
+    out = []
+    for nm in WRAPPED:
+        if nm not in fns:
+            raise Unsupported("wrapper %s not found in the AST" % nm)
+        out.append(gen_pure(fns[nm], nm, "gen_" + nm[2:]))
+    return "\n".join(out)
+
+
 def ast_of(name, td):
     tu = os.path.join(td, name + ".cpp")
     with open(tu, "w") as f:
@@ -373,6 +525,7 @@ def generate():
         with ThreadPoolExecutor(max_workers=8) as ex:
             asts = list(ex.map(lambda t: ast_of(t[0], td), TARGETS))
         spec = gen_sym_and_type(td)
+        spec += "\n" + gen_convertor(td) + "\n" + gen_wrappers(td)
     out = ["(* Gen_leaf.v — GENERATED by bin/leafgen.py from the typed clang AST of /repo/elfio/*.hpp; do not edit. *)",
            "From Coq Require Import NArith Bool.", "From ElfioV Require Import Bytes Leaf_ops.", "Local Open Scope N_scope.", ""]
     for (name, kind), fn in zip(TARGETS, asts):
